@@ -53,6 +53,20 @@ func registerEnvIntrinsics(I map[string]Intrinsic) {
 		*p = zero(t)
 		return Tuple{p, nilErr()}
 	}
+	I["os.Geteuid"] = func(g *G, a []Value, pos token.Pos) Value { return mkInt(1000) }
+	I["os.Getegid"] = func(g *G, a []Value, pos token.Pos) Value { return mkInt(1000) }
+	I["os.Getuid"] = func(g *G, a []Value, pos token.Pos) Value { return mkInt(1000) }
+	I["os.Getgid"] = func(g *G, a []Value, pos token.Pos) Value { return mkInt(1000) }
+	I["net.ResolveUnixAddr"] = func(g *G, a []Value, pos token.Pos) Value {
+		g.vm.ex.stubsUsed["net.ResolveUnixAddr (syntactic)"]++
+		t := g.vm.lookupType("net", "UnixAddr")
+		p := new(Value)
+		st := zero(t).(Struct)
+		st[fieldIndex(t, "Name")] = a[1]
+		st[fieldIndex(t, "Net")] = a[0]
+		*p = st
+		return Tuple{p, nilErr()}
+	}
 	I["context.Background"] = func(g *G, a []Value, pos token.Pos) Value {
 		t := g.vm.lookupType("context", "backgroundCtx")
 		return Iface{T: t, V: zero(t)}
